@@ -576,6 +576,41 @@ def eval_filters(spec):
                 got = sorted(idx_t.get(id(nd), -1) for nd in rep)
                 if got != want:
                     F.add("filter_leaf_nodes.removed_reported", key, "reported removed (preorder indices) %r, spec removes %r" % (got, want), **base)
+    # prune_leaves_without_taxa(recursive or not) with the taxon taken off every subset of the leaves
+    leaf_idx = [i for i, nd in enumerate(order) if not nd._child_nodes]
+    for r in range(0, len(leaf_idx)):
+        for sub in itertools.combinations(leaf_idx, r):
+            off = set(sub)
+            for recursive in (True, False):
+                direct = lambda nd: (not nd._child_nodes) and idx[id(nd)] in off
+                stays = lambda nd: not recursive
+                for sup in (True, False):
+                    exp = I.restrict_general(src._seed_node, direct, stays, sup)
+                    if exp is None or not any(l.taxon is not None for l in I.E_leaves(exp)):
+                        continue
+                    key = "%s|prune_leaves_without_taxa|off=%s|rec=%d|sup=%d" % (skey, ",".join(map(str, sub)), recursive, sup)
+                    base = dict(spec=spec, off=list(sub), recursive=recursive, sup=sup, variant="prune_leaves_without_taxa.filter")
+                    flags.append(m >= 4)
+                    t, _ = mk(spec)
+                    order_t = S.pre(t._seed_node)
+                    idx_t = {id(nd): i for i, nd in enumerate(order_t)}
+                    for i in sub:
+                        order_t[i].taxon = None
+                    try:
+                        rep = guarded("prune_leaves_without_taxa", lambda: t.prune_leaves_without_taxa(recursive=recursive, suppress_unifurcations=sup))
+                    except Exception as ex:
+                        F.add("prune_leaves_without_taxa.raises", key, "%s: %s" % (type(ex).__name__, ex), **base)
+                        continue
+                    errs = S.arborescence_errors(t)
+                    if errs:
+                        F.add("prune_leaves_without_taxa.wellformed", key, "; ".join(errs[:3]), **base)
+                        continue
+                    if I.canon_node(t._seed_node) != I.canon_E(exp):
+                        F.add("prune_leaves_without_taxa.structure", key, "result %s, required %s" % (S.newick(t._seed_node), I.E_newick(exp)), **base)
+                    want = _removed_general(src._seed_node, direct, stays)
+                    got = sorted(idx_t.get(id(nd), -1) for nd in rep)
+                    if got != want:
+                        F.add("prune_leaves_without_taxa.removed_reported", key, "reported removed (preorder indices) %r, spec removes %r" % (got, want), **base)
     return dict(n=len(flags), nontrivial=flags, fails=F.items)
 
 
@@ -622,7 +657,7 @@ def _ambiguous_internal(root, direct, sel):
         return all(gone(c) for c in n._child_nodes) and n.taxon is None
 
     for n in S.pre(root):
-        if n._child_nodes and not direct(n) and n.taxon is not None and n.taxon.label in sel and all(gone(c) for c in n._child_nodes):
+        if n._child_nodes and n.taxon is not None and n.taxon.label in sel and all(gone(c) for c in n._child_nodes):
             return True
     return False
 
@@ -641,8 +676,9 @@ def eval_prune_flags(spec):
                 direct = lambda nd: ((app_int and bool(nd._child_nodes)) or (app_leaf and not nd._child_nodes)) and nd.taxon is not None and nd.taxon.label in sel
                 stays = lambda nd: nd.taxon is not None
                 if _ambiguous_internal(src._seed_node, direct, sel):
-                    # an internal node whose taxon is selected but which the flags exempt, and which loses all its
-                    # children: whether it then counts as a leaf is not settled by the statement -> not evaluated
+                    # an internal node whose taxon is selected and which loses all its children during the call:
+                    # whether it then counts as a leaf or as an internal node for the two is_apply_filter flags is not
+                    # settled by the statement -> not evaluated
                     continue
                 for sup in (True, False):
                     exp = I.restrict_general(src._seed_node, direct, stays, sup)
@@ -769,16 +805,16 @@ def t2(ctx):
     R3 = (None, True, False)
     N = 6 if thorough else 5
     # 1. every subset of every small shape
-    sp = _specs(N, PAT_NAMES, (None,)) + _specs(N, PAT_NAMES if thorough else ["dyadic", "onemissing", "leafmissing"], (True, False))
+    sp = _specs(N, PAT_NAMES, (None,)) + _specs(N, ["dyadic", "onemissing", "leafmissing"], (True, False))
     items = [("subsets", s, None) for s in sp]
     _run_scope(ctx, "induced@subsets<=%d" % N,
                "every ordered shape with <=%d leaves (internal out-degree >=2) x (7 length patterns with rooting undefined + %d "
                "patterns with rooted and unrooted) x every non-empty "
                "subset of leaves to keep x suppress_unifurcations x update_bipartitions x 6 in-place variants, and x 5 extraction variants; "
-               "non-trivial = source with >=3 leaves and a proper subset" % (N, 7 if thorough else 3), True, items, reported)
+               "non-trivial = source with >=3 leaves and a proper subset" % (N, 3), True, items, reported)
     if thorough:
-        items = [("subsets", s, dict(upds=(False,))) for s in _specs(7, ["dyadic", "onemissing"], (None,), nmin=7)]
-        _run_scope(ctx, "induced@subsets=7", "every ordered shape with 7 leaves x {dyadic, onemissing} x every non-empty subset x "
+        items = [("subsets", s, dict(upds=(False,))) for s in _specs(7, ["dyadic"], (None,), nmin=7)]
+        _run_scope(ctx, "induced@subsets=7", "every ordered shape with 7 leaves x dyadic lengths x every non-empty subset x "
                    "suppress_unifurcations x 11 variants (update_bipartitions=False); non-trivial = proper subset", True, items, reported)
     # 2. namespaces larger than the leaf set / with removed taxa / reversed, and a root edge length
     n2 = 5 if thorough else 4
@@ -810,7 +846,8 @@ def t2(ctx):
     items = [("filters", s, None) for s in _specs(n5, ["dyadic", "onemissing"] if not thorough else ["dyadic"], (None,), nmin=2)]
     _run_scope(ctx, "filters@predicates<=%d" % n5, "shapes with 2..%d leaves x every predicate on the nodes (every subset of nodes accepted) x "
                "is_apply_filter_to_leaf_nodes x is_apply_filter_to_internal_nodes x suppress_unifurcations for extract_tree, and x recursive x "
-               "suppress_unifurcations for filter_leaf_nodes; requests that keep no leaf are skipped; non-trivial = >=4 nodes" % n5, True, items, reported)
+               "suppress_unifurcations for filter_leaf_nodes, and prune_leaves_without_taxa x recursive x suppress_unifurcations with the taxon "
+               "taken off every proper subset of the leaves; requests that keep no leaf are skipped; non-trivial = >=4 nodes" % n5, True, items, reported)
     # 6. prune_taxa flags with taxa on internal nodes
     items = [("flags", s, None) for s in _specs(n5, ["dyadic", "none"], (None,), nmin=2)]
     _run_scope(ctx, "prune_taxa-flags@internal-taxa<=%d" % n5, "shapes with 2..%d leaves, a taxon on every non-seed internal node, every non-empty "
